@@ -121,7 +121,6 @@ def classic_frechet_pbox(x, y, op) -> Staircase:
 
 def straddle_frechet_pbox(x, y):
     """bespoke Frechet for multiplcation when anyone straddles 0"""
-    from .aggregation import imposition
 
     warnings.warn(
         "Multiplication of a pbox straddling zero needs attention",
@@ -129,8 +128,26 @@ def straddle_frechet_pbox(x, y):
     )
     naive_base_p = vectorised_naive_frechet_pbox(x, y, operator.mul)
     balch_p = x.balchprod(y)
-    imp_p = imposition(naive_base_p, balch_p)
-    return imp_p
+    # imposition of the two enclosures.  Both are rigorous bounds of the same product, so in exact
+    # arithmetic they always intersect; where they coincide (steps of zero width, e.g. a precise
+    # distribution times a real number) binary64 rounding can put one bound a few ulp across the other.
+    # Such a crossing is replaced by the outer pair of the two values; a larger one is still an error.
+    left = np.maximum(naive_base_p.left, balch_p.left)
+    right = np.minimum(naive_base_p.right, balch_p.right)
+    crossed = left > right
+    if np.any(crossed):
+        scale = max(
+            np.max(np.abs(naive_base_p.left)),
+            np.max(np.abs(naive_base_p.right)),
+            np.max(np.abs(balch_p.left)),
+            np.max(np.abs(balch_p.right)),
+        )
+        if np.any(left[crossed] - right[crossed] > 64 * np.finfo(float).eps * scale):
+            raise Exception(
+                "Imposition does not exist as high left greater than low right"
+            )
+        left[crossed], right[crossed] = right[crossed].copy(), left[crossed].copy()
+    return Staircase(left=list(left), right=list(right))
 
 
 def nagative_frechet_pbox(x, y):
